@@ -31,7 +31,7 @@ def reachable(st, root, skip_fields=("parent_context", "env", "template")):
     return seen
 
 
-def _copy_isolated(c, origin):
+def _copy_isolated(c, origin, replay=None):
     """`origin`: where the calling context came from -- the top-level render ("root"), an
     isolated copy (the caller is itself a partial/macro with arguments: "partial") or a
     block-scoped copy (the caller is a {% block %} body that sees its parent's scope: "block").
@@ -98,7 +98,7 @@ def _copy_isolated(c, origin):
         return z3.BoolVal(r.st.deref(r.st.deref(f["scope"]).fields["_maps"]).items == dq.items and f["locals"] == f0["locals"])
     c.ensures("caller-context-untouched", caller_untouched)
     c.raises("ContextDepthError")
-    c.replay("code", code=REPLAY_NESTED if origin != "root" else REPLAY)
+    c.replay("code", code=replay() if replay else (REPLAY_NESTED if origin != "root" else REPLAY))
 
 
 for _origin in ("root", "partial", "block", "partial-in-block", "partial-in-partial"):
